@@ -157,6 +157,10 @@ def hSvc : Handler
     let u ← parseInt u
     let d ← unhex d
     pure (showPyM (fun t => hex (t ++ d) ++ " " ++ toString (t.length + d.length)) (uuidBytes u))
+  -- `svc <uuid>`: a fresh object, nothing assigned to `.data` yet (it starts empty)
+  | [u] => do
+    let u ← parseInt u
+    pure (showPyM (fun t => hex t ++ " " ++ toString t.length) (uuidBytes u))
   | _ => none
 
 /-- `urlpaset <typehex> i<int>|<hex>` -/
